@@ -10,8 +10,10 @@ Decided clauses:
         sodium_malloc fills the region with a non-zero constant.
   R17.3 free: _free_aligned is reached only with sodium_memcmp(ptr-16, canary, 16) == 0; the
         mismatch arm cannot return.
-  R17.4 overflow / oversize guards dominate the size arithmetic, failing with ENOMEM and NULL; each
-        sodium_mprotect_* applies its own PROT_* constant to the stored region.
+  R17.4 overflow / oversize guards dominate the size arithmetic, failing with ENOMEM and NULL, and the
+        oversize guard's margin covers everything added afterwards (canary, page rounding, extra
+        pages), so the mapping size cannot wrap (R17.4-margin); each sodium_mprotect_* applies its
+        own PROT_* constant to the stored region.
 NOT decided: that a protected page faults (OS), protection-transition histories.
 """
 from .. import build
@@ -67,6 +69,13 @@ def run(ctx, chk):
 
     PS = ("op", "PS")
     SIZE = ("arg", 0)
+
+    def sub_ps(p):
+        """the term the path loaded page_size as (to ask the branch facts about its range)"""
+        for e in p.events:
+            if e.kind == "load" and e.addr == PS_G and e.res is not None:
+                return e.res
+        return None
 
     # ---- _page_round body --------------------------------------------------------------------
     for p in cm.paths(prog, pr):
@@ -124,15 +133,54 @@ def run(ctx, chk):
                     src_ok = True
         chk.ob("R17.1", sm, "the unprotected size R(16+size) is stored at the mapping base (read back by free/mprotect)", src_ok,
                loc=sm.loc(p.end_iid), path=None if src_ok else p, key="R17.1 _sodium_malloc stored-size")
-        # R17.4: oversize guard before the arithmetic
+        # R17.4: an oversize guard precedes the arithmetic, and its margin covers everything that is added afterwards.
+        # With the guard  size < SIZE_MAX - k*page - c, the mapping size  m*page + R(c1 + size)  and  R(x) <= x + page - 1,
+        # the total cannot wrap iff (m + 1 - k)*page + c1 - c - 2 <= 0 for every page size the function accepts. (A wrapped
+        # total of 0 makes mmap fail with EINVAL, so the caller sees the wrong errno; a small non-zero one maps too little.)
         fb = p.facts_before(al[0].idx)
-        g = False
+        guard = None
         for t, v in fb.items:
             if v and t[0] == "icmp" and t[1] == "ult" and t[2] == SIZE:
-                if lin(t[3], m) == ({PS: -4}, -1) or lin(t[3], m) == ({PS: -4}, M64) :
-                    g = True
-        chk.ob("R17.4", sm, "size < SIZE_MAX - 4*page_size is established before the size arithmetic", g, loc=sm.loc(al[0].iid),
-               path=None if g else p, key="R17.4 _sodium_malloc oversize-guard")
+                co, k0 = lin(t[3], m)
+                if set(co) <= {PS} and co.get(PS, 0) <= 0:
+                    c = (-1 - k0) % (1 << 64)
+                    if c < (1 << 32):
+                        guard = (-co.get(PS, 0), c)
+        # the other sound shape: a wrap test after each of the three growth steps (canary, page rounding, extra pages)
+        steps = None
+        if guard is None:
+            xs = ({SIZE: 1}, 16 + 0)
+            have = {"canary": False, "rounding": False, "pages": False}
+            for t, v in fb.items:
+                if not v or t[0] != "icmp" or t[1] not in ("uge", "ule", "ugt", "ult"):
+                    continue
+                big, small = (t[2], t[3]) if t[1] in ("uge", "ugt") else (t[3], t[2])
+                lb, ls = lin(big, m), lin(small, m)
+                if lb == xs and ls == ({SIZE: 1}, 0):
+                    have["canary"] = True
+                if lb == ({Rsym: 1}, 0) and ls == xs:
+                    have["rounding"] = True
+                if lb == tot and ls == ({Rsym: 1}, 0):
+                    have["pages"] = True
+            steps = have
+        okg = guard is not None or (steps is not None and all(steps.values()))
+        chk.ob("R17.4", sm, "an oversize guard (size < SIZE_MAX - k*page_size - c, or a wrap test after each growth step) is established "
+               "before the mapping is requested", okg, loc=sm.loc(al[0].iid),
+               detail="" if okg else "no margin guard; wrap tests present: %s" % steps, path=None if okg else p,
+               key="R17.4 _sodium_malloc oversize-guard")
+        if guard is not None and tot[0].get(Rsym, 0) == 1 and set(tot[0]) <= {PS, Rsym}:
+            kq, cq = guard
+            mq, c1 = tot[0].get(PS, 0), 16 + tot[1]
+            pmin = max((fb.interval(sub_ps(p)) or (1, 0))[0], 1) if sub_ps(p) is not None else 1
+            slope, off = mq + 1 - kq, c1 - cq - 2
+            ok = (slope < 0 and slope * pmin + off <= 0) or (slope == 0 and off <= 0)
+            nbad = off + 1 if slope == 0 and off > 0 else None
+            chk.ob("R17.4-margin", sm, "the guard's margin (%d*page + %d) covers the canary, the page rounding and the %d extra pages: "
+                   "the mapping size cannot wrap" % (kq, cq, mq), ok, loc=sm.loc(al[0].iid),
+                   detail="" if ok else "(m + 1 - k)*page + c1 - c - 2 = %d*page %+d > 0%s" % (
+                       slope, off, "" if nbad is None else ": the %d sizes SIZE_MAX - %d*page - %d .. SIZE_MAX - %d*page - %d pass the guard "
+                       "and wrap the total to 0 (mmap fails with EINVAL instead of ENOMEM)" % (nbad - 1, kq, cq + nbad - 1, kq, cq + 1)),
+                   path=None if ok else p, key="R17.4-margin _sodium_malloc")
     chk.floor("R17.1", "success paths of _sodium_malloc", nsucc, 1)
     # refusing arm: ENOMEM + NULL, nothing allocated
     ke = build.sys_constants(ctx.wd, "errno.h", ["ENOMEM"])
